@@ -84,7 +84,7 @@ class Builder:
         r = self.rng
         return r.choice(["ON", "OFF", "1", "abc", '"a b"', '"x"', "${VAR}", "[[br]]", "a.b", "-DFOO=1", '""',
                          "lib/foo.cmake", "$ENV{HOME}", '"semi;colon"', "[=[a]b]=]", "TRUE", '"two  blanks   here"',
-                         '"tab\there"', "[[a   b]]", '"  lead and trail  "'])
+                         '"tab\there"', "[[a   b]]", '"  lead and trail  "', r'"Hello\nWorld"', r'"col\tsep"', r'"quote \" inside"', r'"back\\slash"'])
 
     def params(self, uid, kind, lo=0, hi=4):
         """-> (written list, expected list)"""
